@@ -89,6 +89,7 @@ def run(chk: Check) -> None:
     run_pending_decorators_cleared(chk, ix)
     run_class_state_is_a_stack(chk, ix)
     run_word_operator_spacing(chk, ix)
+    run_replaced_args_lose_nothing(chk, ix)
 
 
 def run_pending_decorators_cleared(chk: Check, ix) -> None:
@@ -190,3 +191,38 @@ def run_word_operator_spacing(chk: Check, ix) -> None:
                         r5.violation(key, f.loc(js), f"`{norm(e)}` is interpolated directly in front of the operand: for the operator `not` the text is `not1` / `notx`, which the stub's reader parses as a name")
     if n < 2:
         raise AnalysisError(f"stubgen: {n} unary-operator interpolations found (expected AliasPrinter.visit_unary_expr and get_str_default_of_node)")
+
+
+def run_replaced_args_lose_nothing(chk: Check, ix) -> None:
+    """R19.6: an argument list is replaced by inferred signatures only when the replacement drops nothing the source said."""
+    r6 = chk.rule("R19.6", "ASTStubGenerator._get_func_args replaces the whole argument list of a known special method by the result of stubutil.infer_method_arg_types, which builds fresh ArgSig objects from names only. Every ArgSig field that those constructions leave at its default (what the source said about the argument: its `default`, its `type`) is tested in the guard of the replacement for *all* arguments (`all(arg.type is None and arg.default is False ...)`): otherwise `def __exit__(self, exc_type=None, exc=None, tb=None)` comes out without its defaults and stubtest rejects the stub", floor=2)
+    arg_cls = ix.cls("mypy.stubdoc.ArgSig")
+    init = arg_cls.methods["__init__"]
+    a = init.node.args
+    fields = [p.arg for p in a.args[1:] + a.kwonlyargs]
+    imt = ix.func("mypy.stubutil.infer_method_arg_types")
+    set_fields = set()
+    for c in ast.walk(imt.node):
+        if isinstance(c, ast.Call) and call_name(c) == "ArgSig":
+            these = set(fields[: len(c.args)]) | {k.arg for k in c.keywords}
+            set_fields = these if not set_fields else (set_fields & these)
+    dropped = [x for x in fields if x not in set_fields and x not in ("name", "default_value")]
+    informative = list(dict.fromkeys(["type"] + dropped))  # the inferred type replaces the source's: the source must not have had one
+    if "default" not in dropped:
+        raise AnalysisError(f"infer_method_arg_types now sets {sorted(set_fields)}; the rule's premise (defaults are dropped) no longer holds")
+    f = ix.func("mypy.stubgen.ASTStubGenerator._get_func_args")
+    guards = [i for i in ast.walk(f.node) if isinstance(i, ast.If) and any(isinstance(c, ast.Call) and call_name(c) == "infer_method_arg_types" for s in i.body for c in ast.walk(s))]
+    if not guards:
+        raise AnalysisError("_get_func_args: the guard around infer_method_arg_types was not found")
+    g = guards[0]
+    for fld in informative:
+        key = f"_get_func_args: inferred signatures replace the arguments only if no argument has a `{fld}`"
+        ok = False
+        for c in ast.walk(g.test):
+            if isinstance(c, ast.Call) and call_name(c) in ("all", "any") and c.args and isinstance(c.args[0], ast.GeneratorExp):
+                if any(isinstance(x, ast.Attribute) and x.attr == fld for x in ast.walk(c.args[0].elt)):
+                    ok = True
+        if ok:
+            r6.ok(key, f.loc(g))
+        else:
+            r6.violation(key, f.loc(g), f"the guard `{norm(g.test)[:100]}` does not look at `arg.{fld}`: infer_method_arg_types builds ArgSig objects without it, so what the source said is lost (`tb=None` becomes `tb`)")
